@@ -256,7 +256,7 @@ def gen_phase1(chk):
                     else:
                         styles = ["prefer"] if idx % 3 else ["random"]
                     cases += torus_cases(rng, w, h, a, b, idx, styles)
-                    if w <= 6 and h <= 6:
+                    if w <= 4 and h <= 4 or (not quick and w <= 6 and h <= 6):
                         s, d = rep(rng, a), rep(rng, b)
                         cases.append(dict(fn="mesh_len", s=s, d=d))
                         cases.append(dict(fn="mesh_path", s=rep(rng, a), d=rep(rng, b)))
@@ -370,7 +370,7 @@ def coq_expr(c, o):
             r = o[1]["requests"][0][2]
         ks = " ".join(zlit(k) for k in c["ks"])
         args = "%s %s %s %s" % (v3(c["s"]), v3(c["d"]), zlit(c["w"]), zlit(c["h"]))
-        return "(shortest_torus_path %s (fun _ _ => %s) %s, torus_path_request %s %s)" % (ks, zlit(r), args, ks, args)
+        return "tp %s %s %s" % (ks, zlit(r), args)
     if fn == "ldf":
         return "longest_dimension_first %s %s %s %s %s" % (
             " ".join(zlit(k) for k in c["ks"]), v3(c["v"]), v2(c["start"]), oz(c["width"]), oz(c["height"]))
@@ -452,7 +452,9 @@ def nontrivial(c, o):
 
 HEADER = ("From Coq Require Import ZArith List. Import ListNotations. Open Scope Z_scope.\n"
           "Require Import Rig.Model.Base Rig.Generated.GenGeometryLinks Rig.Generated.GenGeometry "
-          "Rig.Model.Geometry.\n")
+          "Rig.Model.Geometry.\n"
+          "Definition tp k0 k1 k2 k3 r s d w h := (shortest_torus_path k0 k1 k2 k3 (fun _ _ => r) s d w h, "
+          "torus_path_request k0 k1 k2 k3 s d w h).\n")
 
 
 def run_impl(chk, cases):
@@ -550,7 +552,7 @@ def run(chk, args):
             chk.oblige("correspondence:model-evaluates", False, str(e))
     chk.coverage["exhaustive"] = False
     chk.coverage["rule"] = (
-        "all ordered pairs of chips on every torus and finite mesh w x h with 1 <= w, h <= %d (three-axis "
+        "all ordered pairs of chips on every torus w x h with 1 <= w, h <= %d and every finite mesh up to 4 x 4 (6 x 6 in the thorough tier) (three-axis "
         "representation shifted by a random k in [-3,3]; shortest_torus_path under scripted random(): random "
         "numerators, 'prefer approach i' (k_i = 0, others 2^53-1) and all-equal draws; randint scripted), "
         "random pairs on %d larger tori up to 255 x 255 of which 4 in 5 are 1 x N, N x 2, 2 x N, N x {1,3,4}, "
